@@ -44,9 +44,10 @@ type gateKey struct{ job, task string }
 
 // Gates block every task inside the monitored runner until a driver (or an automatic policy) releases it
 type Gates struct {
-	mu      sync.Mutex
-	waiting map[gateKey]chan Outcome
-	pending map[gateKey]Outcome
+	okOnStop map[gateKey]bool
+	mu       sync.Mutex
+	waiting  map[gateKey]chan Outcome
+	pending  map[gateKey]Outcome
 	// slow-to-stop tasks: after the stop was delivered they stay inside Run until the driver releases them
 	slow     map[gateKey]bool
 	stopping map[gateKey]chan struct{}
@@ -99,6 +100,26 @@ func (g *Gates) ReleaseStop(job, taskName string) {
 		close(ch)
 	}
 	g.mu.Unlock()
+}
+
+// ReleaseStopOK lets a slow task return as if it had finished its work in spite of the stop (Run returns nil)
+func (g *Gates) ReleaseStopOK(job, taskName string) {
+	g.mu.Lock()
+	if g.okOnStop == nil {
+		g.okOnStop = map[gateKey]bool{}
+	}
+	g.okOnStop[gateKey{job, taskName}] = true
+	g.mu.Unlock()
+	g.ReleaseStop(job, taskName)
+}
+
+func (g *Gates) takeOKOnStop(job, taskName string) bool {
+	g.mu.Lock()
+	defer g.mu.Unlock()
+	k := gateKey{job, taskName}
+	ok := g.okOnStop[k]
+	delete(g.okOnStop, k)
+	return ok
 }
 
 // waitStop is called by a task that was told to stop
@@ -355,6 +376,12 @@ func (m *MonRunner) Run(t *task.Task) error {
 	default:
 		// told to stop: a slow task keeps running for a while
 		m.gates.waitStop(jobID, t.Name)
+		if m.gates.takeOKOnStop(jobID, t.Name) {
+			t.End = time.Now()
+			m.log.Add(Event{Kind: KRunExit, Job: jobID, Task: t.Name, Pipe: m.Pipeline, Res: "ok-after-stop"})
+			m.notify(t)
+			return nil
+		}
 		t.Errored = true
 		t.Error = context.Canceled
 		m.log.Add(Event{Kind: KRunExit, Job: jobID, Task: t.Name, Pipe: m.Pipeline, Res: "canceled"})
